@@ -30,7 +30,8 @@ RULE = ('every table = sequence of 0..N rows from a per-type menu; every composi
         'kind; a case = (type, rows, composition, writer kind); non-trivial = >= 2 rows split into >= 2 non-empty pieces')
 ASSUMPTIONS = [
     'tables are built with the public constructors from plain Python lists (VCF: VCFWithInfoAsStringEntry, and tables as '
-    'yielded by the VCF reader)',
+    'yielded by the VCF reader); in addition, for every type, the canonical single-write bytes are read back LAZILY and the '
+    'pieces are selections of that table, whole tables read from per-piece files, or a mix of both',
     'float text is not pinned: floats are compared by value to printing precision (rel 1e-6)',
     'FASTA wrap width is read from the writer at run time only to choose sequence lengths near its multiples; the output '
     'is judged by parsing it',
@@ -41,12 +42,20 @@ MANIFEST_TEXT = ('Every table of 0..3 (quick) / 0..4 (thorough) rows drawn from 
                  'NarrowPeak, SequenceEntry at lengths around multiples of the FASTA line width, SequenceEntryWithQuality, '
                  'VCF entries, SAMEntry, GTFEntry; incl. int64-range coordinates) x every composition of the rows into '
                  'successive writes incl. empty pieces x {NpBufferedWriter, bnp.open w, gzip target, w-then-append, stream of '
-                 'pieces}: piecewise content == single write; output canonical (ints exactly str(v), VCF POS+1, header once); '
+                 'pieces, ONE write of np.concatenate(pieces)}: piecewise content == single write; pieces are constructed tables and, '
+                 'for every type, lazily re-read tables (selections of one table / whole tables of their own / mixed, with an empty '
+                 'selection at every position); output canonical (ints exactly str(v), VCF POS+1, header once); '
                  'read-back (lazy and eager) equals the table.')
 MANIFEST_NOTE = ('Trusted: NumPy, CPython str/int/float, gzip module, models/tables.py. Row menus bound the value space.')
 TECHNIQUE = 'bounded exhaustive enumeration of write histories (all compositions) against a canonical-serialisation model'
 
-KINDS = ['buffered', 'open_w', 'gz', 'append', 'gz_append', 'stream']
+KINDS = ['buffered', 'open_w', 'gz', 'append', 'gz_append', 'stream', 'concat']
+# 'concat' = ONE write of np.concatenate(pieces): the statement's "one write of the concatenated table" taken literally
+REREAD_KINDS = ['buffered', 'stream', 'concat']     # writer kinds used when the pieces are lazily read tables
+PIECE_SOURCES = ['slice', 'own', 'mixed']
+# slice: every piece is a selection src[a:b] of ONE table read from a file holding all rows;  own: every non-empty piece
+# is a whole table read from a file of its own (an empty piece is an empty selection of the big table);  mixed: the
+# first non-empty piece is a selection of the big table, the others are whole tables of their own
 TYPE_NAMES = ['bed3', 'bed6', 'bedgraph', 'narrowpeak', 'bed12', 'fasta', 'fastq', 'sam', 'gtf', 'vcf', 'vcf_read',
               'vcf_typed', 'vcf_entry']
 SUFFIX = {'bed3': '.bed', 'bed6': '.bed', 'bedgraph': '.bdg', 'narrowpeak': '.narrowPeak', 'bed12': '.bed', 'fasta': '.fa',
@@ -222,6 +231,11 @@ def write_with(kind, tname, piece_tables, scratch):
         for p in piece_tables:
             w.write(p)
         return b.getvalue()
+    if kind == 'concat':
+        import numpy as np
+        b = io.BytesIO()
+        NpBufferedWriter(b, B).write(np.concatenate(piece_tables))
+        return b.getvalue()
     path = os.path.join(scratch, 'out' + SUFFIX[tname] + ('.gz' if kind in ('gz', 'gz_append') else ''))
     if os.path.exists(path):
         os.unlink(path)
@@ -270,6 +284,23 @@ def vcf_source(rows, lazy, typed=False):
     return make_reader(data, buffer_type_for('vcf_read'), lazy).read()
 
 
+def _pieces(tname, piece_rows, piece_src, src, own):
+    out = []
+    pos = 0
+    seen_nonempty = False
+    for pr in piece_rows:
+        idx = slice(pos, pos + len(pr))
+        pos += len(pr)
+        if src is None:
+            out.append(T.build_table('vcf' if tname == 'vcf' else tname, pr))
+        elif piece_src == 'slice' or not pr or (piece_src == 'mixed' and not seen_nonempty):
+            out.append(src[idx])
+        else:
+            out.append(own(pr))
+        seen_nonempty = seen_nonempty or bool(pr)
+    return out
+
+
 def check_table(res, tname, row_ids, tier, seed, scratch, deadline):
     m = menu(tname, tier, seed)
     rows = [m[i] for i in row_ids]
@@ -281,37 +312,67 @@ def check_table(res, tname, row_ids, tier, seed, scratch, deadline):
         kinds = kinds[:7]
     n = len(rows)
     base_feats = {'type': tname}
-    src = None
-    src_modes = [None]
-    if tname in ('vcf_read', 'vcf_typed'):
-        if n == 0:
-            return
-        src_modes = [False, True]
-    for src_lazy in src_modes:
-        if tname in ('vcf_read', 'vcf_typed'):
+    reader_type = tname in ('vcf_read', 'vcf_typed')
+    if reader_type and n == 0:
+        return
+    # source modes: (src_lazy, piece_src).  Constructed tables: (None, None).  Tables as yielded by the reader: for the VCF
+    # reader kinds eager and lazy; for every other type the canonical single-write bytes are read back LAZILY ('reread')
+    # and the pieces are taken from that table / from tables read from per-piece files.
+    if reader_type:
+        modes = [(lz, ps) for lz in (False, True) for ps in PIECE_SOURCES]
+    else:
+        modes = [(None, None)] + ([('reread', ps) for ps in PIECE_SOURCES] if n >= 1 else [])
+    reference = None
+    own_cache = {}
+    for src_lazy, piece_src in modes:
+        src = None
+        own = None
+        mode_kinds = KINDS
+        if reader_type:
+            if piece_src == 'slice':
+                reference = None        # each reading mode is compared with its own single write (lazy vs eager is C05)
             src = vcf_source(rows, src_lazy, typed=tname == 'vcf_typed')
-        reference = None
+            own = lambda pr, lz=src_lazy: vcf_source(pr, lz, typed=tname == 'vcf_typed')
+            if piece_src != 'slice':
+                mode_kinds = REREAD_KINDS
+        elif src_lazy == 'reread':
+            if reference is None or not reference:
+                continue            # the constructed single write failed or is not judged: nothing canonical to read back
+            mode_kinds = REREAD_KINDS
+            try:
+                src = make_reader(reference, buffer_type_for(tname), True).read()
+
+                def own(pr):
+                    key = tuple(map(repr, pr))
+                    if key not in own_cache:
+                        own_cache[key] = write_with('buffered', tname, [T.build_table('vcf' if tname == 'vcf' else tname, pr)], scratch)
+                    return make_reader(own_cache[key], buffer_type_for(tname), True).read()
+            except observe.ObserverError:
+                raise
+            except Exception as e:
+                res.extra['reread source unavailable (read-back failure is reported by the constructed mode): %s' % exc_name(e)] += 1
+                continue
         for comp in compositions(n):
             for empty_at in [None] + list(range(len(comp) + 1)):
                 if deadline.expired():
                     res.capped = True
                     return
                 piece_rows = pieces_of(rows, comp, empty_at)
-                for kind in KINDS:
+                if piece_src in ('own', 'mixed') and len([c for c in comp if c]) < 2 and empty_at is None:
+                    continue        # a single piece: identical to 'slice'
+                for kind in mode_kinds:
+                    if kind == 'concat' and len(piece_rows) < 2:
+                        continue
                     case = {'type': tname, 'row_ids': list(row_ids), 'comp': list(comp), 'empty_at': empty_at, 'kind': kind,
-                            'tier': tier, 'seed': seed, 'src_lazy': src_lazy}
+                            'tier': tier, 'seed': seed, 'src_lazy': src_lazy, 'piece_src': piece_src}
                     feats = dict(base_feats, kind=kind, pieces='single' if len(comp) <= 1 and empty_at is None else 'multi',
-                                 src_lazy=src_lazy)
+                                 src_lazy=src_lazy, piece_src=piece_src)
                     res.evaluations += 1
                     res.states += 1
                     res.planned += 1
                     res.traces += 1
                     try:
-                        pos = 0
-                        piece_tables = []
-                        for pr in piece_rows:
-                            piece_tables.append(make_piece(tname, pr, src, slice(pos, pos + len(pr))))
-                            pos += len(pr)
+                        piece_tables = _pieces(tname, piece_rows, piece_src, src, own)
                         data = write_with(kind, tname, piece_tables, scratch)
                         res.transitions += len(piece_tables)
                     except observe.ObserverError:
@@ -349,6 +410,8 @@ def check_table(res, tname, row_ids, tier, seed, scratch, deadline):
                         res.outcome('ok:empty-total')
                         continue
                     if reference is not None and data != reference:
+                        body = lambda d: [ln for ln in d.split(b'\n') if not ln.startswith(b'#')]
+                        feats = dict(feats, differs_in='header-lines-only' if body(data) == body(reference) else 'records')
                         res.fail('piecewise-differs-from-single-write', case, feats,
                                  expected=reference.decode('latin1')[:600], observed=data.decode('latin1')[:600])
                         res.outcome('differs')
